@@ -571,6 +571,53 @@ def body_1d(inp, N, flip):
     return A, E
 
 
+DERIVED_OPS = (("add", lambda a, c: a + c), ("mul", lambda a, c: a * c), ("rsub", lambda a, c: c - a))
+
+
+def body_derived(inp, H, W, flip, dims=2):
+    """masked arrays that went through arithmetic (x + c, x * c, c - x), in BOTH storage modes, written on BOTH routes: the raw buffer
+    of a derived array need not be zero at masked pixels, the file / HDU must still read back with zeros there"""
+    import autoarray as aa
+    shape = (H, W) if dims == 2 else (H * W,)
+    mask = np.array(inp["mask"], dtype=bool).reshape(shape)
+    v = _vals(inp["v"], shape)
+    c = inp["c"] if V.is_sym(inp["c"]) else float(inp["c"])
+    s = _scal(inp["s"])
+    env = Env(flip)
+    A, E = {}, {}
+    try:
+        if dims == 2:
+            m = aa.Mask2D(mask=mask, pixel_scales=(s, s))
+            cls, sc = aa.Array2D, (s, s)
+        else:
+            m = aa.Mask1D(mask=mask, pixel_scales=(s,))
+            cls, sc = aa.Array1D, (s,)
+        for sn in (False, True):
+            arr = cls(values=v.copy(), mask=m, store_native=sn)
+            for opn, opf in DERIVED_OPS:
+                tag = "%dd.sn%d.%s" % (dims, sn, opn)
+                d = hx.attempt(lambda: opf(arr, c))
+                e_nat = _masked(np.array([opf(x, c) for x in v.reshape(-1)], dtype=object).reshape(shape), mask)
+                A[tag + ".type"], E[tag + ".type"] = _get(d, lambda o: type(o).__name__), cls.__name__
+                if isinstance(d, hx.Raised):
+                    continue
+                p = env.path("derived", tag + ".fits")
+                w = hx.attempt(lambda: d.output_to_fits(file_path=p))
+                A[tag + ".file.write"], E[tag + ".file.write"] = w, None
+                if w is None:
+                    back = hx.attempt(lambda: cls.from_fits(file_path=p, pixel_scales=sc))
+                    A[tag + ".file.native"], E[tag + ".file.native"] = _nat(back), e_nat
+                    A[tag + ".file.stored"] = hx.attempt(lambda: env.raw(p)[0])
+                    E[tag + ".file.stored"] = _flipud(e_nat, flip and dims == 2)
+                hdu = hx.attempt(lambda: d.hdu_for_output)
+                back = _get(hdu, lambda h: cls.from_primary_hdu(primary_hdu=h))
+                A[tag + ".hdu.native"], E[tag + ".hdu.native"] = _nat(back), e_nat
+                A[tag + ".hdu.pixel_scales"], E[tag + ".hdu.pixel_scales"] = _get(back, lambda b: list(b.pixel_scales)), list(sc)
+    finally:
+        env.close()
+    return A, E
+
+
 FS_WRITERS = ("array2d", "kernel2d", "mask2d", "array1d", "mask1d", "imaging")
 FS_KINDS = ("nested", "absdir", "reldir", "bare")
 FS_STEPS = ("first.write", "first.read", "first.scale", "refused.write", "refused.read", "refused.scale",
@@ -839,6 +886,22 @@ def case_1d(ctx, N, flip):
     hx.run_body(ctx, body_1d, inputs, {"N": N, "flip": flip}, validate_every=4, tol={k: SCALE_TOL for k in keys}, known=known or None)
 
 
+def case_derived(ctx, H, W, flip, dims=2, masks="all"):
+    shape = (H, W) if dims == 2 else (H * W,)
+    if masks == "all":
+        mb = V.bool_array("m", shape)
+        ctx.assume(z3.Or(*[z3.Not(b.t) for b in mb.reshape(-1)]))
+        mask = ctx.concrete_bools(mb)
+    else:
+        mask = _family_mask(masks, H, W).reshape(shape)
+    ctx.set_case(mask=mask.tolist())
+    s = V.real("s")
+    ctx.assume(s.t > 0)
+    inputs = {"mask": mask, "v": V.real_array("v", shape), "c": V.real("c"), "s": s}
+    keys = ["%dd.sn%d.%s.hdu.pixel_scales" % (dims, sn, opn) for sn in (0, 1) for opn, _ in DERIVED_OPS]
+    hx.run_body(ctx, body_derived, inputs, {"H": H, "W": W, "flip": flip, "dims": dims}, validate_every=16, tol={k: SCALE_TOL for k in keys})
+
+
 def case_fs(ctx, H, W, H2, W2, flip, writer, kind):
     s_old, s_new = V.real("s_old"), V.real("s_new")
     ctx.assume(z3.And(s_old.t > 0, s_new.t > 0))
@@ -883,7 +946,7 @@ def case_imaging(ctx, H, W, flip):
     hx.run_body(ctx, body_imaging, inputs, {"H": H, "W": W, "flip": flip}, validate_every=1, tol={"imaging.header_scale": SCALE_TOL})
 
 
-BODIES = {"case_2d": body_2d, "case_1d": body_1d, "case_fs": body_fs, "case_hdu_index": body_hdu_index, "case_imaging": body_imaging}
+BODIES = {"case_2d": body_2d, "case_1d": body_1d, "case_fs": body_fs, "case_derived": body_derived, "case_hdu_index": body_hdu_index, "case_imaging": body_imaging}
 
 
 def cases(tier):
@@ -906,6 +969,15 @@ def cases(tier):
     for N in range(1, n1 + 1):
         for flip in (False, True):
             out.append(("case_1d", {"N": N, "flip": flip}))
+            out.append(("case_derived", {"H": 1, "W": N, "flip": flip, "dims": 1, "masks": "all"}))
+    cap_d = 6 if tier == "quick" else 9
+    for (H, W) in shapes:
+        for flip in (False, True):
+            if H * W <= cap_d:
+                out.append(("case_derived", {"H": H, "W": W, "flip": flip, "dims": 2, "masks": "all"}, {"split": 0 if H * W < 8 else 3}))
+            elif H * W <= 12 and H <= 4 and W <= 4:
+                for fam in MASK_FAMILY[1:]:
+                    out.append(("case_derived", {"H": H, "W": W, "flip": flip, "dims": 2, "masks": fam}))
     for flip in (False, True):
         for writer in FS_WRITERS:
             for kind in FS_KINDS:
@@ -928,5 +1000,5 @@ def cases(tier):
 def replay(cand):
     """real astropy, real temporary directory, untouched repository code; only the reported obligation decides"""
     cand = dict(cand)
-    cand["case_kwargs"] = {k: v for k, v in cand["case_kwargs"].items() if k != "masks"}
+    cand["case_kwargs"] = {k: v for k, v in cand["case_kwargs"].items() if k != "masks"}   # bodies receive the mask itself
     return hx.replay_body(BODIES[cand["case_fn"]], cand, key=cand["obligation"])
